@@ -155,3 +155,4 @@ split_thorough("C02.server_sources","event#0",4)
 split_thorough("C17.server_rtc","origin_as#0",2)
 add("C02.best_stream","VH_c02_best_stream",SRV,sc+["server/c02.go"],{"params":{"steps":2},"unwind":4200,"harness_s":600},{"params":{"steps":3},"unwind":4200,"harness_s":2400},expect_reach=["matches","empty"],fixed_clock=True,bounds="real BgpServer.watch(WatchBestPath) with the management loop and the watcher's pump goroutine (cooperative schedule): 2 eBGP sources x 2 prefixes, every history of 2 (quick) / 3 events over {announce (AS_PATH length 1..2), withdraw, session lost}; notifications applied in order versus GetBestPathList")
 split_thorough("C02.best_stream","source#0",2)
+add("C12.deferral","VH_c12_deferral",SRV,sc+["server/c12.go"],{"params":{},"unwind":4200,"harness_s":600},{"params":{},"unwind":4200,"harness_s":1200},expect_reach=["all_eor","deferral_expired"],fixed_clock=True,bounds="real handleFSMMessage restarting-speaker branches, the deferral time.AfterFunc (virtual clock) and softResetOut(deferral) through the real management loop: 2 graceful-restart peers, one route from the first, the second sends End-of-RIB or stays silent until the deferral timer (1..2 s) fires")
